@@ -120,8 +120,13 @@ class RefChecker:
                 return self.whnf(self.R.subst(a2.fields[3], 0, f[1], 0), ctx)
             return T.mk("Application", [wf, f[1]])
         if ct.startswith("Let"):
+            # normalise the body under the group's binders (group members unfold by delta in the
+            # extended context), then close what is left over the group
             defs = [tuple(d) for d in f[0]]
-            return self.whnf(self.close_group(f[1], defs), ctx)
+            n = len(defs)
+            level = len(ctx) + n
+            ctx2 = ctx + [Entry(ann, d, level) for (_, ann, d) in defs]
+            return self.close_group(self.whnf(f[1], ctx2), defs)
         if ct == "Negation":
             w = self.whnf(f[0], ctx)
             c2, a2 = self.view(w, True)
@@ -242,6 +247,10 @@ class RefChecker:
             c2, a2 = self.view(fty)
             if c2 != "Pi":
                 raise Reject("applicand is not a function", f[0], self.roles)
+            imp = a2.fields[1]
+            if (imp if isinstance(imp, bool) else self.ex.branch(imp)):
+                # gram has no implicit-argument inference: an implicit function cannot be applied
+                raise Reject("applicand takes an implicit argument", f[0], self.roles)
             self.expect(f[1], ctx, a2.fields[2], "the argument")
             return self.R.subst(a2.fields[3], 0, f[1], 0)
         if ct.startswith("Let"):
